@@ -32,6 +32,8 @@ func init() {
 		{"cfcheckpt", wlCFCheckpt},
 		// GetBlock through the real work manager, stopped while the response handler validates the answer
 		{"getblock-shutdown", wlGetBlockShutdown},
+		// real blockHandler and cfHandler goroutines: reorganisation / checkpoint-mismatch roll-back while cfHandler starts
+		{"reorg-cfhandler", wlReorgCFHandler},
 	}
 }
 
